@@ -172,6 +172,7 @@ func init() {
 			{Name: "fieldlens", TShards: 2, Run: lengthUnit("newick")},
 			{Name: "parallel", Race: true, Run: codecParallel("newick")},
 			{Name: "histories", Run: codecHistories("newick")},
+			{Name: "readerzoo", TShards: 4, Run: zooUnit("newick")},
 			firstCallUnit(firstCodec("newick")),
 		},
 	})
